@@ -14,6 +14,8 @@ use penguin_mux::Datagram;
 use std::collections::BTreeMap;
 use std::time::Duration;
 
+/// flow id the opener's generator draws for the stream in the `same_flow` scenarios
+const STREAM_FLOW: u32 = 0x5151;
 const W_DROPPED_FULL: u64 = 1;
 const W_HOST_TOO_LONG: u64 = 2;
 const W_SHORT_PAYLOAD: u64 = 4;
@@ -41,6 +43,9 @@ struct Scn {
     cap: usize,
     /// two application tasks wait in get_datagram at the same time (the method takes &self), one datagram each
     two_readers: bool,
+    /// the datagrams carry the flow id of the STREAM that runs on the same connection (the id space is shared: a UDP
+    /// bind even requires it); what happens to a datagram must never happen to the stream of the same number
+    same_flow: bool,
 }
 
 fn mk(d: &D) -> Datagram {
@@ -48,7 +53,7 @@ fn mk(d: &D) -> Datagram {
 }
 
 fn exec(sc: &Scn, render: bool) -> RunOutput {
-    let a = SideCfg { opts: opts(2, 1).datagram_buffer_size(4), rng: vec![] };
+    let a = SideCfg { opts: opts(2, 1).datagram_buffer_size(4), rng: if sc.same_flow { vec![STREAM_FLOW] } else { vec![] } };
     // (the accept queue is sized differently from the datagram queue, so that mixing the two options up shows)
     let b = SideCfg { opts: opts(2, 1).datagram_buffer_size(sc.buf).stream_buffer_size(if sc.buf >= 2 { 1 } else { 4 }), rng: vec![] };
     let mut w = World::two(if sc.cap == 0 { UNBOUNDED_CAP } else { sc.cap }, &a, &b);
@@ -298,7 +303,7 @@ pub fn run(args: &Args) -> Report {
             }
             // a well-formed datagram after the sweep point: refused ones must have no other effect
             list.push(D { flow: 42, host: b"ok".to_vec(), port: 7, data: b"after".to_vec() });
-            let sc = Scn { name: format!("field sweep host_len={hl} payload_len={pl}"), list, buf: 8, late_reader: false, with_stream: false, cap: 0, two_readers: false };
+            let sc = Scn { name: format!("field sweep host_len={hl} payload_len={pl}"), list, buf: 8, late_reader: false, with_stream: false, cap: 0, two_readers: false, same_flow: false };
             cases.push(Case { try_unbounded: false, max_k: u32::MAX, label: sc.name.clone(), exec: Box::new(move |r| exec(&sc, r)) });
         }
     }
@@ -310,16 +315,25 @@ pub fn run(args: &Args) -> Report {
                 for cap in if thorough { vec![0usize, 1, 2] } else { vec![0usize, 1] } {
                     let n = buf + 2;
                     let list = (0..n).map(|i| D { flow: 100 + (i as u32 % 2), host: vec![b'h', i as u8], port: 9, data: vec![i as u8; 1 + i % 3] }).collect();
-                    let sc = Scn { name: format!("burst of {n} into buffer {buf} late_reader={late} with_stream={with_stream} cap={cap}"), list, buf, late_reader: late, with_stream, cap, two_readers: false };
+                    let sc = Scn { name: format!("burst of {n} into buffer {buf} late_reader={late} with_stream={with_stream} cap={cap}"), list, buf, late_reader: late, with_stream, cap, two_readers: false, same_flow: false };
                     cases.push(Case { try_unbounded: false, max_k: u32::MAX, label: sc.name.clone(), exec: Box::new(move |r| exec(&sc, r)) });
                 }
             }
         }
     }
+    // ---- the burst carries the flow id of the stream next to it
+    for buf in [1usize, 2] {
+        for late in [false, true] {
+            let n = buf + 2;
+            let list = (0..n).map(|i| D { flow: STREAM_FLOW, host: vec![b's', i as u8], port: 9, data: vec![i as u8; 1 + i % 3] }).collect();
+            let sc = Scn { name: format!("burst of {n} into buffer {buf} late_reader={late} on the flow id of the stream sharing the connection"), list, buf, late_reader: late, with_stream: true, cap: 0, two_readers: false, same_flow: true };
+            cases.push(Case { try_unbounded: false, max_k: u32::MAX, label: sc.name.clone(), exec: Box::new(move |r| exec(&sc, r)) });
+        }
+    }
     // ---- two application tasks waiting in get_datagram at once: each datagram that arrives must reach one of them
     for n in [2usize] {
         let list = (0..n).map(|i| D { flow: 200 + i as u32, host: vec![], port: 1, data: vec![i as u8] }).collect();
-        let sc = Scn { name: format!("{n} datagrams for two tasks waiting in get_datagram at the same time"), list, buf: 4, late_reader: false, with_stream: false, cap: 0, two_readers: true };
+        let sc = Scn { name: format!("{n} datagrams for two tasks waiting in get_datagram at the same time"), list, buf: 4, late_reader: false, with_stream: false, cap: 0, two_readers: true, same_flow: false };
         cases.push(Case { try_unbounded: false, max_k: u32::MAX, label: sc.name.clone(), exec: Box::new(move |r| exec(&sc, r)) });
     }
     let plan = Plan {
